@@ -798,10 +798,11 @@ PP_NC = {1: 4, 2: 8, 3: 10, 4: 12}   # abstract coefficient counts (model Static
 PP_FIXED = {0: -1, 3: 12, 2: 8}      # abstract order parameter -> concrete ORDER (2 -> 8: ten coefficients are rejected)
 
 
-def mcppoly_cfg(fixed, maxops, emit, broken="none", ncs="{1, 2, 3}"):
-    return ("SPECIFICATION Spec\nCONSTANTS\n  StaticLimit = 2\n  Ids = {1, 2}\n  Fixed = %d\n  Ncs = %s\n  Segs = {1, 2}\n  Versions = {1, 2}\n"
-            "  MaxOps = %d\n  Emit = %s\n  Broken = \"%s\"\nINVARIANT Inv\nCONSTRAINT EmitScripts\nVIEW View\nCHECK_DEADLOCK FALSE\n"
-            % (fixed, ncs, maxops, "TRUE" if emit else "FALSE", broken))
+def mcppoly_cfg(fixed, maxops, emit, broken="none", ncs="{1, 2, 3}", kinds='{"ok", "few_bp", "row_mismatch"}', evalks="{0, 1, 2, 3}", derivks="{1, 2}", segs="{1, 2}"):
+    return ("SPECIFICATION Spec\nCONSTANTS\n  StaticLimit = 2\n  Ids = {1, 2}\n  Fixed = %d\n  Ncs = %s\n  Segs = %s\n  Versions = {1, 2}\n"
+            "  MaxOps = %d\n  Emit = %s\n  Broken = \"%s\"\n  KindSet = %s\n  EvalKs = %s\n  DerivKs = %s\n"
+            "INVARIANT Inv\nCONSTRAINT EmitScripts\nVIEW View\nCHECK_DEADLOCK FALSE\n"
+            % (fixed, ncs, segs, maxops, "TRUE" if emit else "FALSE", broken, kinds, evalks, derivks))
 
 
 def expand_ppoly_script(r, tabseed, fixed, hist, dim):
@@ -863,43 +864,59 @@ def expand_ppoly_script(r, tabseed, fixed, hist, dim):
     return cmds
 
 
+def pp_risk(h):
+    """signature of how a history exposes the two lazy caches: what was done to an object (evaluated? derivative taken?)
+    between its last (re)initialisation and the next one or an assignment onto it, and how the coefficient count changed"""
+    st = {}
+    sigs = []
+    for a in h:
+        if a["op"] in ("ctor", "update"):
+            o = a["obj"]
+            if a["op"] == "update" and o in st and a["kind"] == "ok" and st[o]["ok"]:
+                p0 = st[o]
+                sigs.append("upd:ev%d:dv%d:nc%d-%d" % (p0["ev"], p0["dv"], p0["nc"], a["nc"]))
+            if a["op"] == "ctor" or o in st:
+                st[o] = {"ev": 0, "dv": 0, "nc": a["nc"], "ok": a["kind"] == "ok", "v": (a["v"], a["nseg"], a["nc"])}
+        elif a["op"] == "eval" and a["obj"] in st:
+            st[a["obj"]]["ev"] = 1
+        elif a["op"] == "derivative" and a["src"] in st:
+            st[a["src"]]["dv"] = 1
+            st[a["dst"]] = {"ev": 0, "dv": 0, "nc": max(1, st[a["src"]]["nc"] - a["k"]), "ok": st[a["src"]]["ok"], "v": ("d", st[a["src"]].get("v"), a["k"])}
+        elif a["op"] in ("copy", "assign") and a["src"] in st:
+            if a["op"] == "assign" and a["dst"] in st:
+                d0, s0 = st[a["dst"]], st[a["src"]]
+                if d0["ok"] and s0["ok"]:       # assignment between two usable objects: which caches exist on either side
+                    sigs.append("asg:d%d%d:s%d%d:nc%d-%d:%s" % (d0["ev"], d0["dv"], s0["ev"], s0["dv"], d0["nc"], s0["nc"],
+                                                               "same" if d0.get("v") == s0.get("v") else "other"))
+            st[a["dst"]] = dict(st[a["src"]])
+    return "|".join(sigs[-2:])
+
+
 def pp_lifecycle_execs(ctx, r, nsample):
+    """Two passes per ORDER parameter.  Wide alphabet (valid and rejected data, all evaluation orders): histories of up to 3 calls.
+    Narrow alphabet (valid data only, coefficient counts above the static-table limit, one evaluation order): histories until the
+    abstract graph is exhausted (every abstract edge has a script; 4 calls suffice, the bound is 6).  Every script is followed by
+    observations of every live object."""
     from vcheck import tlc_generate
     execs = []
     for fixed in (0, 3, 2):
-        scripts = tlc_generate(ctx, "MCPPolyObj", mcppoly_cfg(fixed, 3, True, ncs="{1, 3, 4}"), "ppolyobj_f%d" % fixed, workers=1, timeout=900)   # histories of up to 4 calls
-        def pp_risk(h):
-            """signature of how a history exposes the two lazy caches: what was done to an object (evaluated? derivative taken?)
-            between its last (re)initialisation and the next one, and how the coefficient count changed"""
-            st = {}
-            sig = ""
-            for a in h:
-                if a["op"] in ("ctor", "update"):
-                    o = a["obj"]
-                    if a["op"] == "update" and o in st and a["kind"] == "ok" and st[o]["ok"]:
-                        p0 = st[o]
-                        sig = sig or "upd:ev%d:dv%d:nc%d-%d" % (p0["ev"], p0["dv"], p0["nc"], a["nc"])
-                    if a["op"] == "ctor" or o in st:
-                        st[o] = {"ev": 0, "dv": 0, "nc": a["nc"], "ok": a["kind"] == "ok"}
-                elif a["op"] == "eval" and a["obj"] in st:
-                    st[a["obj"]]["ev"] = 1
-                elif a["op"] == "derivative" and a["src"] in st:
-                    st[a["src"]]["dv"] = 1
-                    st[a["dst"]] = {"ev": 0, "dv": 0, "nc": max(1, st[a["src"]]["nc"] - a["k"]), "ok": st[a["src"]]["ok"]}
-                elif a["op"] in ("copy", "assign") and a["src"] in st:
-                    st[a["dst"]] = dict(st[a["src"]])
-            return sig
-        groups = {}
-        for h in scripts:
-            last = h[-1]
-            groups.setdefault((last["op"], last.get("kind", ""), len(h), pp_risk(h)), []).append(h)
-        per = max(1, nsample // max(1, len(groups)))
-        for g in sorted(groups, key=str):
-            hs = groups[g]
-            r.shuffle(hs)
-            for h in hs[:per]:
-                cmds = expand_ppoly_script(r, ctx.seed, fixed, h, r.choice([1, 2, 3, 4]))
-                execs.append((len(cmds), cmds))
+        wide = tlc_generate(ctx, "MCPPolyObj", mcppoly_cfg(fixed, 3, True, ncs="{1, 3, 4}"), "ppolyobj_f%d" % fixed, workers=1, timeout=900)
+        deep = []
+        for j, ncs in enumerate(("{3, 4}", "{1, 3}")):
+            deep += tlc_generate(ctx, "MCPPolyObj", mcppoly_cfg(fixed, 6, True, ncs=ncs, kinds='{"ok"}', evalks="{1}", derivks="{1}", segs="{1}"),
+                                 "ppolyobj_deep_f%d_%d" % (fixed, j), workers=1, timeout=900)
+        for scripts, share in ((wide, nsample // 2), (deep, nsample - nsample // 2)):
+            groups = {}
+            for h in scripts:
+                last = h[-1]
+                groups.setdefault((last["op"], last.get("kind", ""), len(h), pp_risk(h)), []).append(h)
+            per = max(1, share // max(1, len(groups)))
+            for g in sorted(groups, key=str):
+                hs = groups[g]
+                r.shuffle(hs)
+                for h in hs[:per]:
+                    cmds = expand_ppoly_script(r, ctx.seed, fixed, h, r.choice([1, 2, 3, 4]))
+                    execs.append((len(cmds), cmds))
     return execs
 
 
@@ -913,7 +930,7 @@ def pp_mc(ctx, lookup=True, lifecycle=True):
     if lifecycle:
         for fixed in (0, 2):
             run_mc_text(ctx, "MCPPolyObj", mcppoly_cfg(fixed, 3 if ctx.quick() else 4, False), "MCPPolyObj(fixed=%d)" % fixed, workers=8, heap="8g")
-        for b in ("noinvalidate", "keeptable"):
+        for b in ("noinvalidate", "keeptable", "assignkeep"):
             run_mc_text(ctx, "MCPPolyObj", mcppoly_cfg(0, 3, False, b), "broken twin lifecycle:" + b, workers=4, expect_violation=True)
 
 
@@ -955,19 +972,33 @@ def plan_C11(ctx):
     tab = ProbTable(ctx.seed)
     sexecs = []
     for order in gen.ORDERS:
-        scripts = [h for h in tlc_generate_spline(ctx, order) if any(a["op"] in ("eval", "knots") for a in h[:-1]) and h[-1]["op"] == "build"]
-        r.shuffle(scripts)
-        for h in scripts[:60 if ctx.quick() else 1500]:
+        def relevant(h):
+            """the trajectory of an object is evaluated, then the object is re-built or assigned to"""
+            seen = set()
+            for a in h:
+                if a["op"] in ("eval", "knots"):
+                    seen.add(a["obj"])
+                elif (a["op"] == "build" and a["obj"] in seen) or (a["op"] == "assign" and a["dst"] in seen):
+                    return True
+            return False
+        allh = [h for h in tlc_generate_spline(ctx, order) if relevant(h)]
+        r.shuffle(allh)
+        byb = [h for h in allh if h[-1]["op"] == "build"]
+        bya = [h for h in allh if h[-1]["op"] == "assign"]
+        k = 60 if ctx.quick() else 1500
+        scripts = byb[:k - k // 3] + bya[:k // 3]
+        for h in scripts:
             cmds = expand_spline_script(tab, order, h)
             sexecs.append((len(cmds), cmds))
     ctx.family, ctx.tracespec, ctx.env_flags = "spline", "TraceSpline", {"VJ_KEEPMEMO": "1"}
     replay_and_validate(ctx, exe, balanced(sexecs, 16 if ctx.quick() else 48), "TraceSpline", {"VJ_KEEPMEMO": "1"}, label="s")
     return finish(ctx, "model_checking",
                   "TLC explores the PPolyND life cycle (construct valid/rejected, update same/different sizes, copy, assign, derivative trajectory, "
-                  "evaluation at several orders) with the two lazy caches modelled (CacheCoherent, NeverStale; 2 broken twins rejected); one script "
+                  "evaluation at several orders) with the two lazy caches modelled (CacheCoherent, NeverStale; 3 broken twins rejected); one script "
                   "per abstract transition, class-balanced sample, expanded on dynamic and fixed ORDER with coefficient counts on both sides of the "
                   "static-table limit and segment counts on both sides of the search threshold; every evaluation must equal the exact value of "
-                  "the LATEST data of that object; spline objects are re-built after their trajectory was evaluated and evaluated again",
+                  "the LATEST data of that object (also after assignment between objects whose caches are in different states: third broken "
+                  "twin); spline objects are re-built or assigned to after their trajectory was evaluated and evaluated again",
                   TRUSTED, ["as C03"], props_judged={"C11", "C03", "C10"})
 
 
